@@ -1,7 +1,7 @@
 PROP = dict(
     properties="Properties/C03.v",
     harness_mods=["Harness/C03.v"],
-    runs=[dict(cmd="c03", quick=30, thorough=600)],
+    runs=[dict(cmd="c03", quick=24, thorough=400)],
     trusted_base=[
         "hand-written Gallina model coq/StateRoot/Model.v of the block's change map and mpt.MapToMPTBatch (tied by correspondence: the batch the real function builds from every block's change set)",
         "the Go harness's flat range-query specification (harness/c03.go c03Range) against which FindStates/SeekStates/GetState/historic DAO Seek are compared",
